@@ -264,7 +264,7 @@ def blockerHolds (base M : DB) (r : Rule) (target : Tuple) (β : Bindings) : Blo
     | _ => false
   | .negSucceeded i rel t =>
     match r.body[i]? with
-    | some (.neg a) => a.rel == rel && memL t (world base M rel) && negBlockedBy β a t
+    | some (.neg a) => a.rel == rel && (world base M rel).contains t && negBlockedBy β a t
     | _ => false
   | .cmpFailed i =>
     match r.body[i]? with
@@ -274,5 +274,21 @@ def blockerHolds (base M : DB) (r : Rule) (target : Tuple) (β : Bindings) : Blo
     match r.body[i]? with
     | some (.cmp x op y) => evalCmp x op y β == none
     | _ => false
+
+/-- can clause `r` derive `target` in the world `(base, M)`? -/
+def clauseFires (base M : DB) (r : Rule) (target : Tuple) : Bool :=
+  match unifyHead target r.head with
+  | none => false
+  | some β0 => !(evalBody (world base M) (world base M) r.body [β0]).isEmpty
+
+/-- C23's Spec on one explanation: if some clause of the relation derives the tuple, not every
+    clause may be reported blocked; otherwise every clause must carry a blocker that holds. -/
+def truthful (prog : Program) (base M : DB) (rel : String) (target : Tuple) (expl : List ClauseExpl) : Bool :=
+  let clauses := prog.filter (fun r => r.head.rel == rel)
+  if clauses.any (fun r => clauseFires base M r target) then expl.any (fun c => c.blocker.isNone)
+  else expl.length == clauses.length &&
+    (clauses.zip expl).all (fun p => match p.2.blocker with
+      | none => false
+      | some b => blockerHolds base M p.1 target p.2.bindings b)
 
 end ILV.Prov
